@@ -159,9 +159,9 @@ def r_compliances_systems(ctx, model):
             else:
                 vec = sum((sp.Rational(rnd.randint(1, 60), rnd.randint(3, 11)) * v for v in ns), sp.zeros(21, 1))
                 vals = {k: vec[i] for i, k in enumerate(SYMS21) if vec[i] != 0}
-            for k in ("c11", "c22", "c33", "c44", "c55", "c66"):        # make it comfortably invertible
-                if k in vals:
-                    vals[k] = abs(vals[k]) + 500
+            for k in ("c11", "c22", "c33", "c44", "c55", "c66"):        # make it comfortably invertible (strictly diagonally dominant), with every non-vanishing compliance
+                if k in vals:                                           # - second-order couplings included - far above the 1e-8 below which the code treats a component as absent
+                    vals[k] = abs(vals[k]) + 60
             # re-impose the relations after strengthening the diagonal: project by averaging related diagonal entries
             if system not in (None, "triclinic"):
                 fixed = dict(vals)
